@@ -57,7 +57,7 @@ def run(ctx, replay=None):
     extra = sorted(os.path.basename(p)[:-2] for p in glob.glob(os.path.join(C.COQ, "theories", "Properties", "C01_*.v")))
     C.run_gate(ctx, extra_props=extra)
     per = 3 if ctx.quick else 30
-    groups = [[tuple(replay["case"])]] if replay else Z.make_groups(ctx, per, only=ROW_PRODUCING)
+    groups = [[tuple(replay["case"])]] if replay else Z.make_groups(ctx, per, only=ROW_PRODUCING, light_factor=2)
     results = Z.run_groups(groups)
     ctx.coverage["rule"] = ("zoo case = (estimator, seed): random parameters, training input X and a second input X' with unseen "
                             "vocabulary / empty items / out-of-range values; non-trivial = transform(X') returned >= 1 row")
